@@ -35,15 +35,28 @@ type vq2T interface {
 // server
 
 type vq2Env struct {
-	cmd      *test.Command
-	seq      int
-	poisoned bool
+	cmd   *test.Command
+	seq   int
+	dropq chan func()
+	done  chan struct{}
 }
 
-func vq2Start() *vq2Env { return &vq2Env{cmd: test.MustRunCommand()} }
+func vq2Start() *vq2Env {
+	e := &vq2Env{cmd: test.MustRunCommand(), dropq: make(chan func(), 4096), done: make(chan struct{})}
+	// indexes of finished cases are deleted in the background (closing ~30 fragments costs more than a whole case)
+	go func() {
+		for f := range e.dropq {
+			f()
+		}
+		close(e.done)
+	}()
+	return e
+}
 
 func (e *vq2Env) Close() {
 	if e.cmd != nil {
+		close(e.dropq)
+		<-e.done
 		e.cmd.Close()
 		e.cmd = nil
 	}
@@ -137,8 +150,9 @@ func (e *vq2Env) create(t vq2T, prefix string, m *vq2Model) string {
 }
 
 func (e *vq2Env) drop(index string) {
-	if e.cmd != nil {
-		_ = e.cmd.API.DeleteIndex(context.Background(), index)
+	cmd := e.cmd
+	if cmd != nil {
+		e.dropq <- func() { _ = cmd.API.DeleteIndex(context.Background(), index) }
 	}
 }
 
@@ -518,7 +532,7 @@ type vq2Eval struct {
 	carry   bool // some Shift carried a bit over a shard edge (anywhere)
 	edge    bool // some Shift operand had a bit on the last column of a container
 	leafSh  map[uint64]bool
-	notGap  bool // Not evaluated while some shard with data in the operand has no existence data (or vice versa)
+	notGap  bool // Not evaluated while some shard with existence data holds no bit of the operand
 }
 
 // eval interprets e. underOp tells whether the value is consumed per shard by something other than the final
@@ -642,9 +656,9 @@ func (m *vq2Model) evalRec(e *vq2Expr, underOp bool, ev *vq2Eval) vq2Set {
 			ev.mustErr = true
 			return vq2Set{}
 		}
-		exSh := vq2Shards(m.exist.sorted())
-		for sh := range vq2Shards(s.sorted()) {
-			if !exSh[sh] {
+		opSh := vq2Shards(s.sorted())
+		for sh := range vq2Shards(m.exist.sorted()) {
+			if !opSh[sh] {
 				ev.notGap = true
 			}
 		}
@@ -879,7 +893,7 @@ func (g *vq2ExprGen) leaf(t *rapid.T) *vq2Expr {
 	for _, f := range g.m.Fields {
 		cands = append(cands, f)
 	}
-	if !g.noMiss && rapid.IntRange(0, 39).Draw(t, "missingField?") == 0 {
+	if !g.noMiss && rapid.IntRange(0, 149).Draw(t, "missingField?") == 0 {
 		return &vq2Expr{Op: "row", Field: "nofield", Row: 1}
 	}
 	f := rapid.SampledFrom(cands).Draw(t, "field")
